@@ -38,7 +38,7 @@ def fam_disabled(tier):
     menu = [I(), I(disabled=''), E('button', (('type', 'button'),)), E('textarea'), E('legend', (), I()), E('legend', (), E('button', (('disabled', ''),))),
             E('div', (), I()), E('div', (), E('legend', (), I())), E('fieldset', (), I()), E('fieldset', (('disabled', ''),), E('legend', (), I()), I()),
             opt(True, False), opt(False, True), I(type='hidden'), E('legend', (), E('fieldset', (), I()))]
-    k = 2 if tier == 'quick' else 3
+    k = 3
     for dis in (False, True):
         for n in range(0, k + 1):
             for seq in itertools.product(menu, repeat=n):
